@@ -9,6 +9,7 @@ public methods of reachable values (str.format / format_map).
 import ast
 import re
 
+from ..astx import code
 from ..astx import walk_no_nested, dotted, call_name, dominating_conditions, flatten_conditions, func_params, terminates, \
     resolve_local
 from ..core import norm, Inconclusive
@@ -114,7 +115,7 @@ def r19a(ctx):
                           f"unexpected reflective primitive `{norm(node, 60)}` in get_member")
     ctx.floor("R19a", n, 1, "reflective primitive sites in expressions.py")
     # the type test that precedes the name test must reject non-identifiers (strings computed at run time)
-    src = ast.unparse(gm.node).replace(" ", "")
+    src = code(gm.node).replace(" ", "")
     mp = func_params(gm.node)[1] if len(func_params(gm.node)) > 1 else "member"
     flat_src = src.replace("\n", "")
     if f"ifnotisinstance({mp},IdentifierToken):raise" in flat_src or f"ifnotissubclass(type({mp}),IdentifierToken):raise" in flat_src:
@@ -225,7 +226,7 @@ def r19c(ctx):
                           + ("" if raises_key else "; an unknown name no longer raises KeyError") + "): names outside the variables given "
                           f"and the whitelist can be resolved")
     # eval defaults
-    src = ast.unparse(ev.node).replace(" ", "")
+    src = code(ev.node).replace(" ", "")
     defaults_ok = "ifglobalsisNone:\nglobals:Dict[str,Any]=DEFAULT_GLOBALS" in src.replace("    ", "") or \
                   "globals=DEFAULT_GLOBALS" in src or "globals:Dict[str,Any]=DEFAULT_GLOBALS" in src
     extra = [x for x in ("builtins", "__builtins__", "globals()", "locals()", "vars(") if x in src]
@@ -355,7 +356,7 @@ def r19e(ctx, names):
     gm = m.functions.get(f"{MOD}.get_member")
     f = m.files[MOD]
     reachable_str = "str" in names or m.find_class("StringToken") is not None
-    src = ast.unparse(gm.node) if gm else ""
+    src = code(gm.node) if gm else ""
     for ty, meths in ATTRIBUTE_TRAVERSING_METHODS.items():
         if ty == "str" and not reachable_str:
             continue
